@@ -38,6 +38,10 @@ type Chan struct {
 	elemT  types.Type
 }
 
+// NativeFn is a function value implemented by the engine (e.g. the cancel
+// function of the context model).
+type NativeFn func(args []Value) Value
+
 type bad struct{}
 
 // Str is a Go string value.
